@@ -111,6 +111,12 @@ func (s *Solver) name(t *Term) string {
 		for i, a := range t.Args {
 			an[i] = s.name(a)
 		}
+		if t.Op == OFToBV && t.Args[0].Sort.K == SInt {
+			if fn := fmt.Sprintf("ringtobits%d", t.Sort.W); !s.declared[fn] {
+				s.declared[fn] = true
+				s.send(fmt.Sprintf("(declare-fun %s (Int) (_ BitVec %d))\n", fn, t.Sort.W))
+			}
+		}
 		if t.Op == OUF && !s.declared[t.Name] {
 			s.declared[t.Name] = true
 			var sb strings.Builder
